@@ -5,8 +5,9 @@ import YaegiVerif.Spec.GoConst
   expression tree): it is computed from the two models only, never from an observed outcome. The label names the
   first place (post-order) where the model of the unchanged interpreter and the Go-spec model part ways.
   The harness attaches the label to a failing input; KNOWN_FINDINGS.json lists the classes that are known
-  (after the repairs of the third round: `typed-decl-mismatch` F03-18, `bool-shift-panic` F03-19,
-  `unmodelled:len-at-run-time` F03-20, `huge-literal` F03-21, `string-codepoint-wrap` F03-22, `const-second-walk` / `block-interplay` F03-14).
+  (after the repairs of the fifth round none of the labels is listed: the classes `typed-decl-mismatch` F03-18,
+  `bool-shift-panic` F03-19, `unmodelled:len-at-run-time` F03-20, `huge-literal` F03-21, `string-codepoint-wrap` F03-22,
+  `const-second-walk` / `block-interplay` F03-14 belonged to findings that are fixed).
   (Glue for reporting; no theorem depends on it.)
 -/
 namespace YaegiVerif.Const.Class
@@ -64,38 +65,13 @@ def goTy (iota : Nat) (e : CExpr) : Option Ty :=
   | .ok v => some v.ty
   | _ => none
 
-/-- label of a node-level divergence. After the repairs of the third round one is left: a shift whose left operand
-    is an untyped boolean constant (`true << 1`) is a Go panic in `check.shift` (the type assertion to
-    constant.Value). Anything else gets a label that no finding lists. -/
+/-- label of a node-level divergence. After the repairs of the fifth round no class of node-level divergences is
+    listed any more (the former `bool-shift-panic` F03-19, `huge-literal` F03-21, `string-codepoint-wrap` F03-22 are
+    fixed): every label below is one that no finding lists, so a divergence is reported. -/
 def labelNode (F : Facts) (env : Env) (e : CExpr) : String :=
   let c := compare (evalY F env none e) (Spec.evalGo env.iota e)
   match evalY F env none e with
   | .unm w => "unmodelled:" ++ w
-  | _ =>
-  match e with
-  | .int v =>
-    -- an integer literal of more than 512 bits: the toolchain refuses it, the interpreter has no limit on literals (F03-21)
-    if bitLen v > Spec.maxUntypedBits then "huge-literal" else "node-other"
-  | .conv .str x =>
-    -- string(c) for an untyped integer constant outside the int32 range: the interpreter converts through
-    -- `rune(int64)`, which keeps the low 32 bits (F03-22)
-    if c == .value && (goTy env.iota x == some (.u .int) || goTy env.iota x == some (.u .rune)) then "string-codepoint-wrap"
-    else (match c with
-      | .yCrash => "node-panic"
-      | .yOkGReject => "node-accepts-invalid"
-      | .yRejectGOk => "node-rejects-valid"
-      | .typeOnly => "node-type"
-      | .value => "node-value"
-      | _ => "node-other")
-  | .bin a x _ =>
-    if isShiftAct a && c == .yCrash && goTy env.iota x == some (.u .bool) then "bool-shift-panic"
-    else (match c with
-      | .yCrash => "node-panic"
-      | .yOkGReject => "node-accepts-invalid"
-      | .yRejectGOk => "node-rejects-valid"
-      | .typeOnly => "node-type"
-      | .value => "node-value"
-      | _ => "node-other")
   | _ =>
     (match c with
      | .yCrash => "node-panic"
@@ -108,28 +84,6 @@ def labelNode (F : Facts) (env : Env) (e : CExpr) : String :=
 inductive Ctx where
   | var | const
   deriving DecidableEq, Repr
-
-/-- the declared type `t` is copied onto the operator at the top of the initialiser and from there down the chain of
-    operators, unary operators and parentheses (not into calls, not below comparisons); the interpreter goes wrong
-    where such an operator has an operand that is, for the specification, a typed constant of another type: the node
-    keeps `t`, the result is computed in `t`, and the mismatch that Go reports is never noticed (F03-18). Decidable on
-    the input: only the specification is consulted. -/
-def chainMismatch (iota : Nat) (t : BT) : CExpr → Bool
-  | .par x => chainMismatch iota t x
-  | .un a x => if a == .not then false else chainMismatch iota t x
-  | .bin a x y =>
-    if isCmpAct a || isLogicAct a then false
-    else
-      let typedOther (z : CExpr) : Bool := match goTy iota z with
-        | some (.t b) => b != t
-        | _ => false
-      typedOther x || typedOther y || chainMismatch iota t x || chainMismatch iota t y
-  | _ => false
-
-def declMismatch (iota : Nat) (declT : Option BT) (e : CExpr) : Bool :=
-  match declT with
-  | some t => chainMismatch iota t e
-  | none => false
 
 /-- class of one declaration (`"-"` = the models agree) -/
 def classifyDecl (F : Facts) (ctx : Ctx) (iota : Nat) (declT : Option BT) (e : CExpr) (y : Out) (g : Res (CV × BT)) : String :=
@@ -145,7 +99,6 @@ def classifyDecl (F : Facts) (ctx : Ctx) (iota : Nat) (declT : Option BT) (e : C
     (match firstDiv F env e with
      | some s => if compare (evalY F env none s) (Spec.evalGo iota s) == .yCrash then labelNode F env s else "-"
      | none => "-")
-  else if declMismatch iota declT e then "typed-decl-mismatch"
   else match y with
     | .unm w => "unmodelled:" ++ w
     | _ =>
